@@ -98,6 +98,14 @@ def families(tier):
         hs = [dict(bus='A', pat='E', name='he', prog=[('disp', 'A', 'C1', m1), ('disp', b2, 'C2', 'await'), ('pause',)]), dict(bus='A', pat='E', name='he2', prog=[('pause',), ('disp', 'A', 'C3', 'ff')]),
               dict(bus='A', pat='C', name='hcA', prog=[('pause',)]), dict(bus='B', pat='C', name='hcB', prog=[('ret', 1)]), dict(bus='A', pat='X', name='hx', prog=[('ret', 0)])]
         add('c09.falsy_parent_event', f'{m1}-{b2}-p{int(par)}', buses, hs, [('disp', 'A', 'E', 'ff'), ('pause',), ('disp', 'A', 'X', 'ff'), ('await', 'E')], par=par)
+    # the event being handled has already been forwarded on (its path ends with another bus) and is evicted from the tiny history of the bus that is still running
+    # its handler (the handler itself overflows it with a burst): event.event_bus inside that handler is still the bus running it, and its children go there
+    for hist, nb, par in itertools.product((1, 2), (3, 5), (True,)):
+        hs = [dict(bus='A', pat='P', name='hp', prog=[('pause',), ('bus?',), ('burst', 'A', 'Z', nb), ('bus?',), ('disp', 'A', 'C', 'ff'), ('bus?',), ('pause',)]),
+              dict(bus='A', pat='Z', name='hz', prog=[('ret', 0)], kind='sync'), dict(bus='A', pat='C', name='hc', prog=[('bus?',), ('ret', 1)]), dict(bus='B', pat='P', name='hpB', prog=[('bus?',), ('pause',)]),
+              dict(bus='B', pat='Z', name='hzB', prog=[('ret', 0)], kind='sync'), dict(bus='B', pat='C', name='hcB', prog=[('bus?',), ('ret', 2)])]
+        out.append(dict(prop='C09', family='c09.evicted_while_handled_and_forwarded', id=f'c09.evicted/h{hist}-n{nb}', cfg=dict(cfg, max_points=300), params=dict(par=par),
+                        scn=dict(buses={'A': dict(parallel=par, hist=hist), 'B': {}}, order=['A', 'B'], handlers=hs, main=[('disp', 'A', 'P', 'ff'), ('pause',)], actors=[], forwards=[('A', 'B')], settle=3.0)))
     # a dispatch made inside a handler is REJECTED (backlog limit), the caller keeps the object and dispatches it again later - from ordinary code (no parent,
     # nobody's child) or from a handler of an unrelated event (that handler's child, that event as parent)
     for nburst, again, hist in itertools.product((53, 60), ('main', 'other_handler'), (50, 5)):
